@@ -449,6 +449,38 @@ def rule_rebuild_keeps_all(ctx, rep, rule_id="R-REBUILD-KEEPS-ALL"):
         raise AnalysisError(f"only {n} element-wise rebuild loops found in codemod classes")
 
 
+def rule_edit_targeted(ctx, rep, rule_id="R-EDIT-TARGETED"):
+    rep.rule(
+        rule_id,
+        "no method of a registered transformer rewrites by *pattern over a subtree* (`libcst.matchers.replace(tree, matcher, ...)`): it changes "
+        "every node below the reported one that happens to match (the `verify=` of a call nested in the reported call), not the node the "
+        "codemod documents; identity-addressed edits (with_changes, deep_replace(node, ...), with_deep_changes(node, ...)) are the idiom",
+        min_instances=1,
+    )
+    from .c02 import families
+
+    n = 0
+    seen = set()
+    for tq, tm in families(ctx).items():
+        for _owner, m in tm.all_methods():
+            if m.qname in seen:
+                continue
+            seen.add(m.qname)
+            n += 1
+            bad = None
+            for c in walk_no_nested(m.node):
+                if isinstance(c, ast.Call) and isinstance(c.func, (ast.Name, ast.Attribute)):
+                    q = ctx.prog.resolve_expr_name(m.module, c.func) or ""
+                    if q in ("libcst.matchers.replace", "libcst.matchers._matcher_base.replace"):
+                        bad = c
+            if bad is not None:
+                rep.check(rule_id, m.qname, m.loc(bad), False, "pattern-replace",
+                          f"`{unparse(bad)[:70]}` replaces every match inside the subtree: nodes nested in the reported one that merely look alike are rewritten too")
+    rep.instance(rule_id, "registered transformers", "src/core_codemods", True, detail=f"{n} methods scanned, no pattern-wide subtree rewrite")
+    if n < 50:
+        raise AnalysisError(f"only {n} transformer methods scanned")
+
+
 def check(ctx, rep):
     rep.explanation = (
         "Sibling agreement between documentation and code: the tokens each hardening transformer introduces by name are recovered "
@@ -461,4 +493,5 @@ def check(ctx, rep):
     rule_args_info_fresh(ctx, rep)
     rule_resolution_not_memoised(ctx, rep)
     rule_rebuild_keeps_all(ctx, rep)
+    rule_edit_targeted(ctx, rep)
     rep.not_covered += ["preservation of every token of arbitrary call shapes through libcst", "argument order for star-args"]
